@@ -37,6 +37,10 @@ CLAIMED = {
             "Theorems C20_raw_default, C20_raw_given, C20_copy_roundtrip, C20_packet_roundtrip, C20_only_new_and_bool_repr, C20_builtin_base. partial: semantics of the built-ins and of pickle are CPython's; they are observed (== / hash / order / format / arithmetic against the plain built-in) in the correspondence, not proved.",
             "Trusted: Coq kernel+VM; CPython built-ins and pickle; class table extracted by introspection each run (Gen/TablesOk_C20).",
             "DESIGN.md section 4 C20"),
+    "C06": ("Coq proof (comparison/condition truth incl. falsy values and exact int-vs-float order; lists = conjunction; nested boolean trees = denotation by nested induction; first-match lookup) + operator table regenerated from comparisons.py + kernel-evaluated correspondence with Comparison/Condition/BooleanExpression.evaluate and the lookup consumers",
+            "Twelve theorems (Props/C06.v) for all environments, literals, operators and trees of any depth. Literal text parsing (int()/float()) is glue done by the harness; consumers (inheritance, calibrator choice) are exercised under C05/C08.",
+            "Trusted: Coq kernel+VM; Python's int()/float() literal parsing; correspondence sampling. Genuine defects F3, F4, F16 found by this check and repaired by fix: commits.",
+            "DESIGN.md section 4 C06"),
 }
 PENDING_REASON = "check not built yet in this round; design in DESIGN.md section 4 (no technique switch planned)"
 
